@@ -7,14 +7,18 @@
                   if e.cnt < 1 { delete(m.ma, key) }; m.ml.Unlock                           -> [ExitMap]
                   e.el.Unlock()                                                              -> [Release]
 
+     TryLock(key): m.ml.Lock (held for the whole call); e := m.ma[key] (created when absent);
+                  if !e.el.TryLock() { return nil, false }; e.cnt++; return e, true          -> [try_step]
+                  (one atomic section; handleReq tries first and falls back to Lock)
+
    Entries live on a heap (a deleted entry may still be referenced by the thread that is about
    to release its mutex); cnt is a uint16.  A thread is a program counter; a schedule is a list
    of (thread, key): the thread performs its next atomic section, the key is used only when the
    thread is outside and calls Lock(key).  A section that is not enabled (Acquire on a held
    mutex) is a no-op, so the quantification over all schedules covers every interleaving.
 
-   Model first, then the invariant and the theorems (all schedules, any number of threads below
-   2^16 -- the width of the counter). *)
+   Model first, then the invariant and the theorems (all schedules -- with TryLock: of (thread, key,
+   try) -- any number of threads below 2^16, the width of the counter). *)
 From Coq Require Import ZArith List Bool Lia.
 Import ListNotations.
 Open Scope Z_scope.
